@@ -152,6 +152,9 @@ func compare(res *Result, c *Case, model SX) {
 			name = f.L[0].Sym
 		}
 		seen[name] = true
+		if strings.HasPrefix(name, "real-") {
+			continue // an observation of the real code for a direct oracle; the model does not print it
+		}
 		if strings.HasSuffix(name, "-skipped") {
 			res.Compared[name]++
 			continue
